@@ -396,12 +396,19 @@ class RuntimeContext:
         * there is or / xor condition
         * the on_error/invalid policy is 'exclude' / 'preserve'
         """
+        merged = self.options
+        if isinstance(options, Options) and not options.vacuum:
+            # the options given here are the library's own settings for this scope (e.g. the trial passes of a union):
+            # they apply on top of the current ones, also when those were declared with override=True
+            specs = dict(merged._options)
+            specs.update(options._options)
+            merged = merged.__class__(**specs)
         return self.__class__(
             context=self,
             cls=self.cls,
             route=route,
             force_error=self.force_error,
-            options=self.options & options,
+            options=merged,
             error_hooks=self.error_hooks,
         )
 
